@@ -782,7 +782,7 @@ def results_stream(ctx, cirq, mods, dchecks, n):
                 ol = '[' + '; '.join(str(o) for o, _ in rep['hist']) + ']'
                 pk = '[' + '; '.join(str(rep['picks'][j % len(rep['picks'])]) for j in range(len(rep['picks']))) + ']%nat'
                 expr = f'orows_eqb (sim_rows {rep["n"]} {tl} {ol} {pk}) {impl}'
-            dchecks.append(('ionq_results', expr, rep, f'rows of key {k!r}'))
+            dchecks.append(('ionq_results', expr, rep, 'rows'))
         # the Python reading of the statement is checked on every case as well (counts / probabilities views are only compared here)
         if not results_oracle(cirq, mods, rep):
             ctx.disagree('correspondence:ionq_results', json.dumps(rep)[:300], 'ionq_results:oracle',
